@@ -408,7 +408,7 @@ fn parse_response(d: &[u8]) -> Option<(u8, usize, usize, Option<(u16, usize)>)> 
 
 fn key_probe(sock: &UdpSocket, port: u16, id: u16, sign: Option<(&str, char)>) -> String {
     let q = soa_query(id, sign);
-    for _ in 0..3 {
+    for _ in 0..25 {      // patient under load, like the zone probes
         if sock.send_to(&q, ("127.0.0.1", port)).is_err() {
             continue;
         }
@@ -588,7 +588,9 @@ fn run_case(f: &[&str], daemon: &str, scratch: &Path, serial: usize) -> String {
         for (n, c) in &probes {
             id = id.wrapping_add(1);
             let mut a = None;
-            for _ in 0..3 {
+            // a probe that is not answered is repeated for about ten seconds: on a heavily loaded machine the daemon (one UDP
+            // worker) can be descheduled for longer than one 300 ms wait; a daemon that really does not answer still ends as `noanswer`
+            for _ in 0..30 {
                 a = query(&sock, dm.port, n, *c, id);
                 if a.is_some() {
                     break;
